@@ -247,7 +247,7 @@ EXTRACT_FUNCS = [
 
 def rule_rbf_extract(chk, prog, tree):
     for rel, qual in EXTRACT_FUNCS:
-        fn = prog.module(rel).func(qual)
+        fn = er.anchor(prog, rel, qual)[1]
         checked, findings = possibly_undefined(fn)
         bad = {}
         for name, use, node in findings:
@@ -266,7 +266,7 @@ def rule_rbf_extract(chk, prog, tree):
             else:
                 chk.ok("rbf-extract", inst)
     # _exps = 0.5 / length_scale**2
-    fn = prog.module(XE).func("RBFEvaluator.__init__")
+    fn = er.anchor(prog, XE, "RBFEvaluator.__init__")[1]
     stores = [n for n in pf.walk_no_nested(fn) if isinstance(n, ast.Assign) and len(n.targets) == 1
               and pf.is_self_attr(n.targets[0], "_exps")]
     if len(stores) != 1:
@@ -292,7 +292,7 @@ def rule_rbf_extract(chk, prog, tree):
                       "exp(-1/2 sum_j ((x_j-c_j)/L_j)**2) exps must be 1/2*L^-2, found %s" % en.show(nf),
                       instance=inst)
     # C side: the quadratic form
-    call = [n for n in pf.walk_no_nested(prog.module(XE).func("RBFEvaluator.__call__"))
+    call = [n for n in pf.walk_no_nested(er.anchor(prog, XE, "RBFEvaluator.__call__")[1])
             if isinstance(n, ast.Call) and pf.is_self_attr(n.func, "_fn")]
     if len(call) != 1:
         raise core.AnalysisError("RBFEvaluator.__call__: native call not found")
@@ -301,9 +301,9 @@ def rule_rbf_extract(chk, prog, tree):
         raise core.AnalysisError("self._exps is not passed exactly once to the native kernel")
     tu = cfacts.TU(tree, MU_C)
     cname = pf.class_attrs(prog.module(XE).cls("RBFEvaluator")).get("_fn")
-    cfn = cname.attr if isinstance(cname, ast.Attribute) else None
+    cfn = er.native_name(cname) if cname is not None else None
     if cfn is None:
-        raise core.AnalysisError("RBFEvaluator._fn is not `<lib>.<function>`")
+        raise core.AnalysisError("RBFEvaluator._fn is not `<lib>.<function>` / getattr(<lib>, \"<function>\")")
     params = tu.params(cfn)
     if idx[0] >= len(params):
         raise core.AnalysisError("%s has fewer parameters than the ctypes call" % cfn)
@@ -350,6 +350,8 @@ def rule_rbf_extract(chk, prog, tree):
 # ----------------------------------------------------------------------------
 def _isinstance_classes(t, var=None):
     """isinstance(v, C) / isinstance(v, (A, B)) -> (v text, [class names]) or None"""
+    if isinstance(t, tuple):  # ('not', expr) from an `if c: raise`: asserts the negation, no positive fact
+        return None
     if isinstance(t, ast.Call) and pf.call_name(t) == "isinstance" and len(t.args) == 2:
         c = t.args[1]
         names = [pf.src(e) for e in c.elts] if isinstance(c, ast.Tuple) else [pf.src(c)]
@@ -361,14 +363,40 @@ def rule_dispatch(chk, prog):
     mt = prog.module(MT)
     kn = prog.module(KN)
     fn = mt.func("get_mapped_gp_evaluator_additive")
-    # the k0 ladder: the if/elif chain whose arms append to k0s
+    # the list of per-dimension factors is whatever is handed to project_kernel_onto_grid as 2nd argument;
+    # the k0 ladder is the isinstance if/elif chain whose arms build that list (append loop, comprehension,
+    # list(...) ...)
+    klist = None
+    for n in pf.walk_no_nested(fn):
+        if isinstance(n, ast.Call) and pf.call_name(n) == "project_kernel_onto_grid" and len(n.args) >= 2:
+            locs = {x.id for x in ast.walk(n.args[1]) if isinstance(x, ast.Name)}
+            comp = {y.id for x in ast.walk(n.args[1]) if isinstance(x, ast.comprehension)
+                    for y in ast.walk(x.target) if isinstance(y, ast.Name)}
+            cand = [nm for nm in sorted(locs - comp) if er.assigns_to(fn, nm) and nm not in er.param_names(fn)]
+            for nm in cand:
+                if any(isinstance(v, (ast.List, ast.ListComp, ast.Call)) for _, v, _ in er.assigns_to(fn, nm)):
+                    klist = klist or nm
+    if klist is None:
+        raise core.AnalysisError("get_mapped_gp_evaluator_additive: the factor list passed to "
+                                 "project_kernel_onto_grid was not found")
+
+    def builds_klist(node):
+        for x in ast.walk(node):
+            if isinstance(x, ast.Assign) and any(isinstance(t, ast.Name) and t.id == klist for t in x.targets):
+                return True
+            if isinstance(x, ast.AugAssign) and isinstance(x.target, ast.Name) and x.target.id == klist:
+                return True
+            if isinstance(x, ast.Call) and isinstance(x.func, ast.Attribute) and x.func.attr in ("append", "extend") \
+                    and isinstance(x.func.value, ast.Name) and x.func.value.id == klist:
+                return True
+        return False
     ladder = None
     for n in pf.walk_no_nested(fn):
-        if isinstance(n, ast.If) and _isinstance_classes(n.test) and "k0s.append" in pf.src(n) \
+        if isinstance(n, ast.If) and _isinstance_classes(n.test) and any(builds_klist(b) for b in n.body) \
                 and not (isinstance(pf.parent(n), ast.If) and n in pf.parent(n).orelse):
             ladder = n
     if ladder is None:
-        raise core.AnalysisError("get_mapped_gp_evaluator_additive: the isinstance ladder filling k0s vanished")
+        raise core.AnalysisError("get_mapped_gp_evaluator_additive: no isinstance ladder builds `%s`" % klist)
     arms = []
     cur = ladder
     while True:
@@ -385,10 +413,8 @@ def rule_dispatch(chk, prog):
     # accepted classes for `var`: isinstance tests / asserts on the names assigned to it
     accepted = []
     for n in pf.walk_no_nested(fn):
-        t = None
-        if isinstance(n, ast.Assert):
-            t = n.test
-        elif isinstance(n, ast.If) and n is not ladder and "k0s.append" not in pf.src(n):
+        t = er.asserted_stmt(n) if isinstance(n, (ast.Assert, ast.If)) else None
+        if t is None and isinstance(n, ast.If) and n is not ladder and not builds_klist(n):
             t = n.test
         ic = _isinstance_classes(t) if t is not None else None
         if ic is None:
@@ -447,8 +473,8 @@ def rule_dispatch(chk, prog):
     # top-level split on the kernel type must reject everything else
     top = [n for n in fn.body if isinstance(n, ast.If) and _isinstance_classes(n.test)]
     inst = "get_mapped_gp_evaluator_additive rejects other kernel types"
-    if top and top[0].orelse and any(isinstance(s, (ast.Assert, ast.Raise)) and (
-            isinstance(s, ast.Raise) or _isinstance_classes(s.test)) for s in top[0].orelse):
+    if top and top[0].orelse and any(isinstance(s, ast.Raise) or _isinstance_classes(er.asserted_stmt(s))
+                                     for s in top[0].orelse):
         chk.ok("dispatch-total", inst, nontrivial=False)
     else:
         chk.violation("dispatch-total", MT, "get_mapped_gp_evaluator_additive", "top-level kernel type split",
@@ -475,8 +501,7 @@ def rule_dispatch(chk, prog):
 # rule 4: spline set accumulation
 # ----------------------------------------------------------------------------
 def rule_spline(chk, prog):
-    mod = prog.module(XE)
-    fn = mod.func("SplineSetEvaluator.__call__")
+    mod, fn = er.anchor(prog, XE, "SplineSetEvaluator.__call__")
     a = [x.arg for x in fn.args.args]
     xname, res, dres = a[1], a[2], a[3]
     g = cfgm.CFG(fn)
@@ -735,8 +760,8 @@ def rule_grad_pairing(chk, prog, tree):
     bound = {}
     for cname, cls in xe.classes.items():
         v = pf.class_attrs(cls).get("_fn")
-        if isinstance(v, ast.Attribute):
-            bound[v.attr] = cname
+        if v is not None and er.native_name(v):
+            bound[er.native_name(v)] = cname
     if len(bound) < 3:
         raise core.AnalysisError("fewer than 3 evaluator classes bind a native kernel through `_fn`")
     tu = cfacts.TU(tree, MU_C)
@@ -790,15 +815,15 @@ def _analyse_own(chk):
     chk.rule("scale-order", "arbf_args lays out one scale per index set by ascending order; the mapper reads that "
                             "layout unshifted")
     chk.guard(rule_scale_order, prog)
-    chk.floor("scale-order", 5, "3 order blocks of arbf_args + loop order + scale[0] read")
+    chk.floor("scale-order", 2, "order blocks of arbf_args + loop order + scale[0] read")
     chk.rule("grad-pairing", "C kernels: each gradient call differentiates a term of the factor it is given, in the "
                              "matching channel, and no term is left out")
     chk.guard(rule_grad_pairing, prog, tree)
-    chk.floor("grad-pairing", 9, "6 gradient calls + 3 completeness obligations in the 3 bound kernels")
-    chk.floor("k0-factor", 3, "3 additive kernels, each compared with its _eval and _train factor")
-    chk.floor("rbf-extract", 40, "locals of 8 extraction/mapping functions + _exps + C quadratic form")
-    chk.floor("dispatch-total", 5, "3 subset additive kernel classes + type split + grid ladder")
-    chk.floor("spline-accumulate", 4, "const, value, gradient columns, scale")
+    chk.floor("grad-pairing", 5, "gradient calls and completeness obligations of the 3 bound kernels")
+    chk.floor("k0-factor", 2, "3 additive kernels")
+    chk.floor("rbf-extract", 25, "locals of the extraction/mapping functions + _exps + C quadratic form")
+    chk.floor("dispatch-total", 2, "3 subset additive kernel classes + type split + grid ladder")
+    chk.floor("spline-accumulate", 2, "const, value, gradient columns, scale")
     chk.assumptions += [
         "sklearn's RBF is exp(-1/2 sum_j ((x_j - y_j)/length_scale_j)**2) (frozen reference)",
         "indexes that only insert axes ([:, None], [np.newaxis, :, :]) do not change the per-dimension factor",
